@@ -1086,10 +1086,10 @@ MANIFEST = {
     "design_ref": "DESIGN.md 4/C17",
 }
 FINDINGS = [
-    {"status": "fixed", "key": "hol-raise:InvalidDerivationException:explain", "commit": "9a05058",
+    {"status": "fixed", "key": "hol-raise:InvalidDerivationException:explain", "commit": "6a1fa1e",
      "what": "CongClosureHOL.explain raised InvalidDerivationException whenever a proof-forest edge was traversed backwards after the first "
              "step (pt.transitive(pt, eq_pt.symmetric()) chained the running proof with itself), e.g. merge(a,b); merge(c,b); explain(a,c)"},
-    {"status": "fixed", "key": "hol-raise:KeyError:explain", "commit": "27c9314",
+    {"status": "fixed", "key": "hol-raise:KeyError:explain", "commit": "445fd57",
      "what": "CongClosureHOL.explain(t, t) raised KeyError for every term t (the core returns an empty dictionary for identical "
              "constants and get_proofterm looked the pair up)"},
 ]
